@@ -38,6 +38,8 @@ def plan(tier, seed):
         for ct in ([0.03] if tier == "quick" else [0.004, 0.03, 0.07, 0.15]):
             sh.append({"kind": "dfs", "driver": d, "depth": 5 if tier == "quick" else 9, "budget": 400 if tier == "quick" else 20000,
                        "cancel_time": ct})
+    for d in ("tridonic", "hasseb"):
+        sh.append({"kind": "app-disconnect", "driver": d, "n": 160 if tier == "quick" else 2000})
     return sh
 
 
@@ -153,8 +155,13 @@ def run_case(driver, seed, part, i, res, forced=None):
         await asyncio.sleep(spec["start"])
         d = sim.driver
         if spec["kind"].startswith("send"):
+            # "not in a transaction" spelled the ways an application wrapper with an optional flag spells it
+            flag = (None, False, 0, "omitted")[(c + i) % 4]
             for _ in range(spec["repeat"]):
-                await d.send(spec["items"][0][1])
+                if flag == "omitted":
+                    await d.send(spec["items"][0][1])
+                else:
+                    await d.send(spec["items"][0][1], in_transaction=flag)
             return "sent"
         if spec["kind"] == "manual":
             from dali.gear.general import EnableDeviceType
@@ -167,7 +174,7 @@ def run_case(driver, seed, part, i, res, forced=None):
                     res.hit("power_supply_in_transaction")
                     await d.send(cmd, in_transaction=True)
                 else:
-                    await d.send(EnableDeviceType(cmd.devicetype), in_transaction=True)
+                    await d.send(EnableDeviceType(cmd.devicetype), in_transaction=(True, 1)[c % 2])
                     await d.send(cmd, in_transaction=True)
             return "manual"
         gens[c] = gen_for(c, spec)
@@ -474,6 +481,15 @@ def run_shard(desc, tier, seed):
         for w in desc["replay"]["witnesses"]:
             x = w["witness"]
             run_case(x["driver"], x["seed"], x["part"], x["case"], res)
+        return res
+    if desc.get("kind") == "app-disconnect":
+        from props.c17 import app_disconnect_case
+        for i in range(desc["n"]):
+            try:
+                app_disconnect_case(desc["driver"], seed, i, res, prefix="C15")
+            except Exception as e:
+                res.inconclusive.append("harness error (app-disconnect): " + short_tb(e))
+                break
         return res
     if desc.get("kind") == "dfs":
         try:
